@@ -47,6 +47,23 @@ def make_tempo(counter=None):
     return oqupy.Tempo(sysm, _bath, _par, _rho, 0.0)
 
 
+def make_tempo_sd(counter=None, kind="sd"):
+    """the failing user callable is the bath's spectral density / correlation function (evaluated lazily, inside the quadratures
+    of the influence functions, while the computation steps forward)"""
+    def j(w):
+        if counter:
+            counter.tick()
+        return 0.1 * w
+
+    def cfun(t):
+        if counter:
+            counter.tick()
+        return 0.05 * np.exp(-t * t) * (1 - 0.3j * t)
+    corr = oqupy.CustomSD(j, cutoff=3.0, cutoff_type="exponential", temperature=0.1) if kind == "sd" else oqupy.CustomCorrelations(cfun)
+    sysm = oqupy.System(0.4 * oqupy.operators.sigma("x") + 0.2 * oqupy.operators.sigma("z"))
+    return oqupy.Tempo(sysm, oqupy.Bath(0.5 * oqupy.operators.sigma("z"), corr), oqupy.TempoParameters(dt=DT, epsrel=1e-6, dkmax=None), _rho, 0.0)
+
+
 def make_mf(counter=None, where="field", species=1):
     """where: which user callable ticks the failure counter: 'field' (field_eom), 'ham<k>' (Hamiltonian of species k)"""
     def mk_ham(k):
@@ -62,6 +79,17 @@ def make_mf(counter=None, where="field", species=1):
         return -0.2 * a + 0.1 * sum(np.trace(x @ oqupy.operators.sigma("z")) for x in states) + 0.05 * t
     ss = [oqupy.TimeDependentSystemWithField(mk_ham(k)) for k in range(species)]
     mfs = oqupy.MeanFieldSystem(ss, field_eom=eom)
+    if where.startswith("sd"):
+        # the spectral density of species k (evaluated inside the quadratures of ITS influence functions, after the networks of
+        # the species before it have been advanced within the step)
+        def mk_j(k):
+            def j(w):
+                if counter and where == "sd%d" % k:
+                    counter.tick()
+                return (0.1 + 0.05 * k) * w
+            return j
+        baths = [oqupy.Bath(0.5 * oqupy.operators.sigma("z"), oqupy.CustomSD(mk_j(k), cutoff=3.0, cutoff_type="exponential", temperature=0.1)) for k in range(species)]
+        return oqupy.MeanFieldTempo(mfs, baths, oqupy.TempoParameters(dt=DT, epsrel=1e-6, dkmax=None), [_rho] * species, 0.3 + 0j, 0.0)
     return oqupy.MeanFieldTempo(mfs, [_bath] * species, _par, [_rho] * species, 0.3 + 0j, 0.0)
 
 
@@ -301,19 +329,29 @@ def run(chk):
         states = [np.append(np.concatenate([np.array(sd.states[i]).reshape(-1) for sd in d.system_dynamics]), d.fields[i]) for i in range(len(d.times))]
         return labels, states
 
-    scenarios = [("tempo", None, 1), ("meanfield", "field", 1), ("meanfield", "ham0", 2), ("meanfield", "ham1", 2), ("meanfield", "field", 2)]
+    scenarios = [("tempo", None, 1), ("tempo", "spectral density", 1), ("tempo", "correlation function", 1), ("meanfield", "field", 1), ("meanfield", "ham0", 2), ("meanfield", "ham1", 2), ("meanfield", "field", 2),
+                 ("meanfield", "sd1", 2)]
     for kind, where, species in scenarios:
         mk = (lambda c: make_tempo(c)) if kind == "tempo" else (lambda c, where=where, species=species: make_mf(c, where, species))
+        if kind == "tempo" and where is not None:
+            mk = (lambda c, where=where: make_tempo_sd(c, "sd" if where == "spectral density" else "corr"))
         probe = Counter()
         obj = mk(probe)
         probe.armed = True
         quiet(obj.compute, T * DT, progress_type="silent")
         n_eval = probe.n
-        if kind == "tempo":
+        if kind == "tempo" and where is None:
             rl, rs = ref[(kind, T)]
+        elif kind == "tempo":
+            d_ = obj.get_dynamics()
+            rl, rs = [int(round(x / DT)) for x in d_.times], [np.array(x) for x in d_.states]
         else:
             rl, rs = mf_result(obj)
         idx = list(range(1, n_eval + 1))
+        if (kind == "tempo" and where is not None) or (where or "").startswith("sd"):
+            # thousands of evaluations inside the quadratures: the first, the last and sampled ones in between
+            idx = sorted(set([1, 2, n_eval // 3, n_eval // 2, n_eval - 1, n_eval] + rng.sample(range(1, n_eval + 1), 6 if thorough else 2)))
+            idx = [j_ for j_ in idx if 1 <= j_ <= n_eval]
         if species > 1 and not thorough and len(idx) > 8:
             idx = idx[:4] + rng.sample(idx[4:], 4)            # several species: sampled in the quick tier
         for j in idx:
